@@ -38,20 +38,20 @@ type XW struct {
 
 // Fid is the model's view of one bound fid.
 type Fid struct {
-	Loc     []string
-	Obj     uint64
-	Type    uint32
-	Opened  bool
-	Flags   uint64
-	Fenced  bool
-	Root    bool
-	IsXR    bool
-	XR      []byte
-	XW      *XW
-	Opaque  bool // behaviour deliberately not modelled (left open by the properties)
+	Loc       []string
+	Obj       uint64
+	Type      uint32
+	Opened    bool
+	Flags     uint64
+	Fenced    bool
+	Root      bool
+	IsXR      bool
+	XR        []byte
+	XW        *XW
+	Opaque    bool // behaviour deliberately not modelled (left open by the properties)
 	XRUnknown bool // xattr-read fid whose value the model does not know
-	OpenIno *memtree.Inode
-	Serial  int // unique per binding (lets checks tell rebinding from persistence)
+	OpenIno   *memtree.Inode
+	Serial    int // unique per binding (lets checks tell rebinding from persistence)
 }
 
 func (f *Fid) path() string { return "/" + strings.Join(f.Loc, "/") }
@@ -1152,5 +1152,28 @@ func (m *Model) Assume(e *Expect) {
 		}
 	case e.onAnyOK != nil:
 		e.onAnyOK(nil)
+	}
+}
+
+// ApplyRejected commits the effect a request has when it fails (Tclunk and
+// Tremove still unbind their fid); used for requests failed by an injected
+// backend fault.
+func (e *Expect) ApplyRejected() {
+	if e.onReject != nil {
+		e.onReject()
+	}
+}
+
+// ApplyEffects commits the request's effects although it was answered with an
+// error (an error returned by Close after the operation itself succeeded).
+func (e *Expect) ApplyEffects() {
+	if !e.Rejected() && e.run != nil {
+		if _, en := e.run(); en != 0 && e.onReject != nil {
+			e.onReject()
+		}
+		return
+	}
+	if e.onReject != nil {
+		e.onReject()
 	}
 }
